@@ -39,7 +39,7 @@ def gen(rng, tier):
                 elif rng.random() < 0.08:
                     s += "~!"        # linked to services that are never added to the accessory
                 ss.append(s)
-            accs.append("%d:%s" % (eid, ",".join(ss)))
+            accs.append("%s%d:%s" % ("@" if rng.random() < 0.15 else "", eid, ",".join(ss)))
             if rng.random() < 0.15:
                 # RemoveAccessory of an object built earlier: a member, or one that was refused as a duplicate
                 accs.append("-%d" % rng.randrange(len(accs)))
@@ -194,12 +194,14 @@ def run(res, a):
         res.obligations.append(("implementation-side runs: /accessories and /characteristics served to two controllers at the same time", bad == 0, "%d runs, %d failing" % (len(rl), bad)))
     # ... and with the interleaving forced at a chunk boundary (A's socket write blocks after its first chunk, another
     # JSON answer is encoded and written meanwhile on the same scheduler thread)
-    if not a.replay or json.load(open(a.replay))["case"].startswith("served "):
+    if not a.replay or json.load(open(a.replay))["case"].startswith("served"):
         rng2 = core.rng_for(ID + "/served", res.seed)
         if a.replay:
             sl = [json.load(open(a.replay))["case"]]
         else:
             sl = ["served " + ";".join("0:" + rng2.choice(svcs) for _ in range(k)) for k in ([3, 12, 30] if a.tier == "quick" else [1, 2, 3, 5, 8, 12, 20, 30, 60, 100])]
+            # databases whose encoding is an exact multiple of the 2048-byte chunk size (1, 2, many chunks)
+            sl += ["servedpad " + ";".join("0:" + rng2.choice(svcs) for _ in range(k)) for k in ([1, 2, 12] if a.tier == "quick" else [1, 1, 2, 3, 5, 12, 30, 60])]
         obs = core.shard_run(os.path.join(core.BUILD, "hcdrv"), FAMILY, ["sv%d %s" % (i, l) for i, l in enumerate(sl)])
         bad = 0
         for i, l in enumerate(sl):
